@@ -9,6 +9,7 @@ CONSTANTS
  Calls = 3
  TxLen = 3
  Guarded = TRUE
+ FailProcs = {}
 INVARIANT NoCrash
 INVARIANT MutualExclusion
 INVARIANT NoLostUnlock
